@@ -79,6 +79,9 @@ def run_part(v, tier):
 
     def deliver(i):
         t = texts[i]
+        # a job left in the background is collected before the end of input, so that its output does not race with the end of the shell
+        if any(n in ("amp", "fiamp") for n in pref[i]["lines"]):
+            t += "wait\n"
         f = run_script("brush", t, front="file", timeout=30)
         s_ = run_script("brush", t, front="stdin", timeout=30)
         b = run_script("bash", t, front="stdin", timeout=30)
